@@ -308,7 +308,7 @@ func c25Step(st *c25State, op string, o *vu.Out) string {
 			return "bad-op"
 		}
 		var set rangeset[packetNumber]
-		prev := int64(-2)
+		prev := int64(-1)
 		for _, part := range strings.Split(t[2], ",") {
 			var lo, hi int64
 			if n, err := fmt.Sscanf(part, "%d-%d", &lo, &hi); n != 2 || err != nil || fmt.Sprintf("%d-%d", lo, hi) != part ||
